@@ -25,6 +25,7 @@ type IncSolver struct {
 	Queries int
 	Time    time.Duration
 	dead    bool
+	Restarts int
 	log     io.Writer
 }
 
@@ -41,6 +42,23 @@ func solverArgv(kind string) []string {
 }
 
 func NewIncSolver(kind string) *IncSolver {
+	s := &IncSolver{kind: kind}
+	s.start()
+	return s
+}
+
+// restart kills a wedged solver process and starts a fresh one (definitions are re-sent lazily).
+func (s *IncSolver) restart() {
+	if s.cmd != nil && s.cmd.Process != nil {
+		s.cmd.Process.Kill()
+		go s.cmd.Wait()
+	}
+	s.Restarts++
+	s.start()
+}
+
+func (s *IncSolver) start() {
+	kind := s.kind
 	argv := solverArgv(kind)
 	cmd := exec.Command(argv[0], argv[1:]...)
 	in, _ := cmd.StdinPipe()
@@ -49,8 +67,8 @@ func NewIncSolver(kind string) *IncSolver {
 	if err := cmd.Start(); err != nil {
 		panic(err)
 	}
-	s := &IncSolver{kind: kind, cmd: cmd, in: in, out: bufio.NewReaderSize(out, 1<<20), defined: map[int]bool{}, decl: map[string]bool{}}
-	if f := os.Getenv("VERIF_SMTLOG"); f != "" {
+	s.cmd, s.in, s.out, s.defined, s.decl, s.dead = cmd, in, bufio.NewReaderSize(out, 1<<20), map[int]bool{}, map[string]bool{}, false
+	if f := os.Getenv("VERIF_SMTLOG"); f != "" && s.log == nil {
 		w, _ := os.Create(f + "." + kind + fmt.Sprint(os.Getpid()))
 		s.log = w
 	}
@@ -58,7 +76,6 @@ func NewIncSolver(kind string) *IncSolver {
 	if kind == "cvc5" {
 		s.send("(set-logic ALL)\n")
 	}
-	return s
 }
 
 func (s *IncSolver) send(txt string) {
@@ -150,7 +167,26 @@ func (s *IncSolver) Check(asserts []*Term, timeoutMs int, wantModel bool) (strin
 		sb.WriteString("(assert " + a.ref() + ")\n")
 	}
 	sb.WriteString("(check-sat)\n")
-	out, err := s.roundTrip(sb.String())
+	type rt struct {
+		out string
+		err error
+	}
+	ch := make(chan rt, 1)
+	txt := sb.String()
+	go func() {
+		o, e := s.roundTrip(txt)
+		ch <- rt{o, e}
+	}()
+	var out string
+	var err error
+	select {
+	case r := <-ch:
+		out, err = r.out, r.err
+	case <-time.After(time.Duration(timeoutMs)*time.Millisecond + 3*time.Second):
+		// the solver ignored its timeout: kill it and start over
+		s.restart()
+		return "unknown", nil
+	}
 	res := "unknown"
 	if err == nil && !strings.Contains(out, "(error") {
 		f := strings.Fields(out)
